@@ -81,6 +81,18 @@ Theorem C10_tool_key_depends_only_on_selected :
 Proof. exact tool_key_depends_only_on_selected_proof. Qed.
 Print Assumptions C10_tool_key_depends_only_on_selected.
 
+(* consequently lines with identical selected fields land in the same shard, get the same dedupe decision and
+   the same cache entry, whatever else they contain *)
+Theorem C10_same_selected_same_key :
+  forall s rs d l1 l2 n, nonul s -> parse_key_spec s = Some rs ->
+  contains_all (Z.of_nat (length (split_fields d l1))) rs ->
+  contains_all (Z.of_nat (length (split_fields d l2))) rs ->
+  select (split_fields d l1) rs = select (split_fields d l2) rs ->
+  shard_key l1 rs d = shard_key l2 rs d /\ dedupe_key l1 rs d = dedupe_key l2 rs d /\ cache_key_of l1 rs d = cache_key_of l2 rs d /\
+  (forall k1 k2, shard_key l1 rs d = Some k1 -> shard_key l2 rs d = Some k2 -> k1 mod n = k2 mod n).
+Proof. exact same_selected_same_key_proof. Qed.
+Print Assumptions C10_same_selected_same_key.
+
 (* dedupe's shortcut for the whole-line key agrees with the field path; the tools' default lists select the whole line *)
 Theorem C10_dedupe_shortcut_consistent :
   forall line d,
